@@ -34,7 +34,7 @@ RULE = ('cases: seeded descriptions with 0-4 systems (arbitrary priorities, freq
         'description signature.')
 ASSUMPTIONS = ['fixtures record what they are handed; the model-level hooks are not handed the model (documented) and are checked through the '
                'most recently created model', 'descriptions are well-formed (unique system ids)']
-FLOORS = {'quick': {'same_dict_object_decoded_again': 207, 'decodes': 2000, 'events_compared': 15000, 'json_decodes': 800, 'dict_decodes': 800, 'repeat_decodes': 300,
+FLOORS = {'quick': {'nested_decodes_that_failed_and_were_caught_by_the_hook': 283, 'retries_of_the_same_description_after_a_failed_decode': 750, 'decodes_failing_half_way': 750, 'same_dict_object_decoded_again': 207, 'decodes': 2000, 'events_compared': 15000, 'json_decodes': 800, 'dict_decodes': 800, 'repeat_decodes': 300,
                     'groups_of_size_zero': 200, 'descriptions_without_systems': 100, 'descriptions_without_agents': 100,
                     'hooks_run': 5000, 'agents_created': 3000, 'complete_models': 300, 'spatial_model_decodes': 300, 'big_agent_groups': 2, 'big_descriptions': 2, 'two_module_descriptions': 200, 'nested_decodes_during_decode': 200, 'late_bound_system_classes': 200,
                     'environment_replaced_by_hook': 100, 'reach:Decode.Decoder.decode': 2000, 'reach:Decode.JsonDecoder.open_file': 800},
@@ -57,7 +57,7 @@ def gen_description(rng, label):
     def h(kind, name=None, module=None):
         hk = {'func': 'hook', 'module': module or mod(), 'params': {'kind': kind, 'name': name}}
         if kind in ('pre_sys', 'post_sys', 'pre_agents', 'post_agents') and rng.random() < 0.12:
-            hk['params']['nested'] = True          # decodes a sub-model with the same decoder object
+            hk['params']['nested'] = rng.choice([True, True, 'fail'])          # decodes a sub-model with the same decoder object (which may fail)
         if kind in ('pre_agents', 'post_agents') and rng.random() < 0.12:
             hk['params']['replace_env'] = True     # gives the model a new environment
         return hk
@@ -133,7 +133,7 @@ def expected_events(d):
     return ev
 
 
-def decode_and_check(ctx, decoder, arg, d, how, inner=None):
+def decode_and_check(ctx, decoder, arg, d, how, inner=None, inner_fail=None):
     from vlib.fixtures import decodables as fx
     import ECAgent.Core as core
     from vlib.fixtures import decodables_alt as fx2
@@ -143,9 +143,12 @@ def decode_and_check(ctx, decoder, arg, d, how, inner=None):
     fx.DynSystem = fx2.DynSystem = None
     SHARED['decoder'] = decoder
     SHARED['inner'] = inner
+    SHARED['inner_fail'] = inner_fail
     SHARED['nested_runs'] = 0
+    SHARED['nested_failures'] = 0
     model = decoder.decode(arg)
     ctx.count('nested_decodes_during_decode', SHARED['nested_runs'])
+    ctx.count('nested_decodes_that_failed_and_were_caught_by_the_hook', SHARED['nested_failures'])
     ctx.count('late_bound_system_classes', sum(1 for s_ in d['systems'] if s_['name'] == 'DynSystem'))
     got = list(fx.EVENTS)
     exp = expected_events(d)
@@ -209,6 +212,49 @@ def decode_and_check(ctx, decoder, arg, d, how, inner=None):
     return model
 
 
+def case_flaky(ctx, case):
+    """A decode that FAILS half-way - the constructor of the j-th agent of a group raises (StopIteration from an iterator that ran dry,
+    an ordinary error, a KeyboardInterrupt-like) - must let the error out (no silently short model); the caller then decodes THE SAME
+    description object again (the cause is gone): that decode is a decode of its own, with the full documented lifecycle."""
+    import ECAgent.Decode as decode
+    from vlib.fixtures import decodables as fx, decodables_alt  # noqa
+    from vlib.fixtures.decodables_state import FLAKY
+    from vlib import faults
+    rng = ctx.rng('flaky', case['i'])
+
+    class DictDecoder(decode.Decoder):
+        def open_file(self, d):
+            return d
+
+    for rep_ in range(6):
+        d = gen_description(rng, f'F{case["i"]}_{rep_}')
+        for hk in [d.get('pre_model_decode'), d.get('post_model_decode')] + [s_.get(k_) for s_ in d['systems'] for k_ in ('pre_system_init', 'post_system_init')] \
+                + [a_.get(k_) for a_ in d['agents'] for k_ in ('pre_agent_init', 'post_agent_init')]:
+            if hk:
+                hk['params'].pop('nested', None)
+        n = rng.randint(2, 6)
+        grp = {'name': 'FlakyAgent', 'module': MOD, 'number': n, 'params': {'group': 'flaky', 'fail_at': rng.randrange(n),
+                                                                             'exc': rng.choice(['StopIteration', 'StopIteration', 'Boom', 'Interrupt'])}}
+        if rng.random() < 0.5:
+            grp['post_agent_init'] = {'func': 'hook', 'module': MOD, 'params': {'kind': 'post_agents', 'name': 'flaky'}}
+        d['agents'].insert(rng.randint(0, len(d['agents'])), grp)
+        live = copy.deepcopy(d)
+        dec = DictDecoder()
+        FLAKY['armed'] = True
+        try:
+            _, err = faults.attempt(dec.decode, live)
+        finally:
+            FLAKY['armed'] = False
+        ctx.count('decodes_failing_half_way')
+        if err is None:
+            raise CaseViolation(f'decode() returned a model although the constructor of agent #{grp["params"]["fail_at"]} of a group of {n} raised '
+                                f'{grp["params"]["exc"]}: the model cannot contain exactly the listed agents', group=grp)
+        decode_and_check(ctx, dec if rng.random() < 0.7 else DictDecoder(), live, d,
+                         'dict Decoder: second decode of the same description object after a decode that failed half-way')
+        ctx.count('retries_of_the_same_description_after_a_failed_decode')
+    ctx.distinct(('flaky', case['i']))
+
+
 def case_desc(ctx, case):
     import ECAgent.Decode as decode
     from vlib.fixtures import decodables, decodables_alt  # noqa - must be in sys.modules for the decoder
@@ -236,6 +282,11 @@ def case_desc(ctx, case):
         inner_path = os.path.join(tmp, 'inner.json')
         with open(inner_path, 'w') as f:
             json.dump(inner_desc, f)
+        inner_fail_desc = copy.deepcopy(inner_desc)
+        inner_fail_desc['systems'].append({'name': 'FailingSystem', 'module': MOD, 'params': {'id': 'never'}})
+        inner_fail_path = os.path.join(tmp, 'inner_fail.json')
+        with open(inner_fail_path, 'w') as f:
+            json.dump(inner_fail_desc, f)
         order = [(k, how) for k in range(n_files) for how in rng.sample(['json', 'dict', 'json', 'samedict', 'samedict'], rng.randint(1, 4))]
         rng.shuffle(order)
         seen = set()
@@ -243,7 +294,7 @@ def case_desc(ctx, case):
         for k, how in order:
             d = descs[k]
             if how == 'json':
-                m = decode_and_check(ctx, decode.JsonDecoder(), paths[k], d, 'JsonDecoder', inner=inner_path)
+                m = decode_and_check(ctx, decode.JsonDecoder(), paths[k], d, 'JsonDecoder', inner=inner_path, inner_fail=inner_fail_path)
                 ctx.count('json_decodes')
             elif how == 'samedict':
                 # ONE description dictionary object per model, kept by the caller and decoded again and again (each decode writes the model
@@ -252,10 +303,10 @@ def case_desc(ctx, case):
                     live[k] = copy.deepcopy(d)
                 else:
                     ctx.count('same_dict_object_decoded_again')
-                m = decode_and_check(ctx, DictDecoder(), live[k], d, 'dict Decoder, the same description object as in an earlier decode', inner=inner_desc)
+                m = decode_and_check(ctx, DictDecoder(), live[k], d, 'dict Decoder, the same description object as in an earlier decode', inner=inner_desc, inner_fail=inner_fail_desc)
                 ctx.count('dict_decodes')
             else:
-                m = decode_and_check(ctx, DictDecoder(), copy.deepcopy(d), d, 'dict Decoder', inner=inner_desc)
+                m = decode_and_check(ctx, DictDecoder(), copy.deepcopy(d), d, 'dict Decoder', inner=inner_desc, inner_fail=inner_fail_desc)
                 ctx.count('dict_decodes')
             if k in seen:
                 ctx.count('repeat_decodes')
@@ -330,7 +381,7 @@ def case_big(ctx, case):
 
 
 def run_case(ctx, case):
-    (case_big if case.get('kind') == 'big' else case_desc)(ctx, case)
+    {'big': case_big, 'flaky': case_flaky}.get(case.get('kind'), case_desc)(ctx, case)
 
 
 def run(ctx):
@@ -340,6 +391,9 @@ def run(ctx):
     for i in range(N_BIG[ctx.tier]):
         if ctx.mine(i) and not ctx.full():
             ctx.run_case({'kind': 'big', 'i': i}, run_case)
+    for i in range(N_DESC[ctx.tier] // 4):
+        if ctx.mine(i) and not ctx.full():
+            ctx.run_case({'kind': 'flaky', 'i': i}, run_case)
 
 
 def replay(ctx, case):
